@@ -52,6 +52,11 @@ var plans = map[string]plan{
 		{Name: "restart-limits", Profile: "limits", Policy: "rtc", Steps: 60, Faults: confirmFaults, FaultRate: 0.03, Weight: 2, Freeze: true},
 		{Name: "restart-quota", Profile: "quota", Policy: "rtc", Steps: 60, Faults: confirmFaults, FaultRate: 0.03, Weight: 2, Freeze: true},
 	}, QuickRuns: 40, QuickSecs: 80, ThoroughRuns: 3000, ThoroughSecs: 1800, Level: "fault_enumeration", Restart: true},
+	"C20": {Variants: []variant{
+		{Name: "events-rtc", Engine: "events", Policy: "rtc", Steps: 60, Weight: 2},
+		{Name: "events-rnd", Engine: "events", Policy: "rnd", PreemptP: 0.2, Steps: 60, Weight: 3},
+		{Name: "events-pct", Engine: "events", Policy: "pct", PctDepth: 3, Steps: 60, Weight: 2},
+	}, QuickRuns: 1500, QuickSecs: 60, ThoroughRuns: 200000, ThoroughSecs: 900},
 	"C13": {Variants: []variant{
 		{Name: "malformed-base", Profile: "base", Policy: "rtc", Steps: 90, Faults: []string{"malformed"}, FaultRate: 0.03, Weight: 3},
 		{Name: "malformed-gang", Profile: "gang", Policy: "rtc", Steps: 90, Faults: with(confirmFaults, "malformed", "node_loss", "app_remove_live"), FaultRate: 0.03, Weight: 3},
